@@ -62,7 +62,7 @@ def run_cases(cases, res, stratum):
             bstr = x.bin(prefix='0b'); hstr = x.hex()
             if n >= 2:
                 # the rendering WITH the binary point fed back as a raw code (the point is part of the rendered string; the digits are the code)
-                dstr = x.bin(frac_dot=True, prefix='0b')
+                dstr = x.bin(frac_dot=True, prefix=c['pbc'] if c.get('pbc') in ('b', '0b', 'B', '0B') else '0b')      # (with each binary prefix the library accepts, upper case included)
                 yd = fx.Fxp(None, s, n, nf); yd.set_val(dstr, raw=True); rt[('set_val', 'bin_dot', True)] = lib.codes_of(yd)[0]
                 rt[('ctor', 'bin_dot', True)] = lib.codes_of(fx.Fxp(dstr, s, n, nf, raw=True))[0]
                 yd2 = fx.Fxp(None, s, n, nf); yd2.from_bin(x.bin(frac_dot=True), raw=True); rt[('from_bin', 'bin_dot', True)] = lib.codes_of(yd2)[0]
